@@ -352,6 +352,37 @@ def run(ctx):
         ctx.ob("C15.d", GETCAPS, argv_ok, "_update_capabilities receives the first response *after* the additional page was merged into it",
                func=GETCAPS, file=g.module.rel, node=n, detail={"argument": show(arg) if arg else None},
                fail="_update_capabilities does not see the merged response (update before merge, or the wrong response object)")
+    # ---- C15.d (history) the reported capabilities are those of *this* fetch: what _update_capabilities leaves in the set of supported
+    # properties is a function of the merged response - the old contents do not survive it (cleared, or rebuilt from nothing).  A partial reset
+    # (only the ids some table knows about) keeps what an earlier fetch reported for the others.
+    uc = prog.funcs.get("msmart.device.AC.device.AirConditioner._update_capabilities")
+    if uc is not None:
+        ucs = summarize(prog, uc)
+        old_sp = ("attr", ("param", uc.params[0]), "_supported_properties")
+
+        def survives(t_, depth=0):
+            """the old set's contents can reach the new value: it occurs in the term other than as the receiver of a clear()"""
+            t_ = strip(t_) if isinstance(t_, tuple) and t_ and isinstance(t_[0], str) else t_
+            if t_ == old_sp:
+                return True
+            if not isinstance(t_, tuple) or depth > 60:
+                return False
+            if t_ and t_[0] == "mut" and t_[1] == "clear":
+                return False
+            if t_ and t_[0] == "ite":
+                return survives(t_[2], depth + 1) or survives(t_[3], depth + 1)          # (the gates only read it)
+            return any(survives(x, depth + 1) for x in t_ if isinstance(x, tuple))
+        n_sp = 0
+        for _pc, _t, rn_, rst_ in ucs.returns:
+            v_ = rst_.env.get(f"{uc.params[0]}._supported_properties")
+            if v_ is None:
+                continue
+            n_sp += 1
+            ctx.ob("C15.d", uc.qual, not survives(v_), "the supported-property set after _update_capabilities is rebuilt from the response (cleared first)", func=uc.qual,
+                   file=uc.module.rel, node=rn_, construct="self._supported_properties reset",
+                   fail="the supported-property set is only partly reset before the new capabilities are added: a capability an earlier fetch reported "
+                        "(and this one does not) is still reported - the result is not the merge of this fetch's records")
+        ctx.count("supported_property_resets", n_sp)
     # ---- C15.e the result of one response is its own: the dict the parser fills and merge() later extends is not also kept - the object
     # itself - in state that outlives the response (a class-level cache, a module-level registry); nor is class-level state mutated through
     # an instance.  Otherwise what one fetch merges shows up in the next one's first page.
